@@ -16,7 +16,9 @@ func init() {
 		explanation: "Decided (structural, for every query tree): " +
 			"C10.exhaustive — the formatter's switch over the expression oneof has a case for every wrapper type, and each case formats that wrapper's own member; " +
 			"C10.parens — the parenthesisation table required by the parser (operands of '&', '|' and '^' are parsed by the simple-expression function, which yields AND/OR only through a parenthesised group — re-checked on the parser on every run) is T[NOT] ⊇ {AND, OR}, T[AND] ⊇ {OR}, T[OR] ⊇ {AND}; each operator formatter is symbolically executed once per assumed operand kind (getter/type tests on the operand resolved by the assumption, all other branches explored both ways): on every path each recursive formatting call for a kind in the table is immediately preceded by a write containing '(' and followed by one containing ')', and for other kinds writes are balanced; " +
-			"C10.quote — the formatter doubles quotes with ReplaceAll(s, `\"`, `\"\"`) and wraps in `\"%s\"`, the parser's decoder undoes it with the swapped constants; C10.lexinput — the lexer scans exactly the string passed to ParseQuery (no rewriting of the raw text, which would alter quoted values); C10.unquote — the decoder removes exactly one delimiter at each end (only s[1:], s[:len-1], TrimPrefix/TrimSuffix of one quote) before undoing the doubling; comparison and placeholder formats are `%s = %s` / `%s = $%d` with the value passed through the quoting function; the group-by list is joined by ',' after ';'. " +
+			"C10.quote — the formatter doubles quotes with ReplaceAll(s, `\"`, `\"\"`) and wraps in `\"%s\"`, the parser's decoder undoes it with the swapped constants; C10.lexinput — the lexer scans exactly the string passed to ParseQuery (no rewriting of the raw text, which would alter quoted values); C10.unquote — the decoder removes exactly one delimiter at each end (only s[1:], s[:len-1], TrimPrefix/TrimSuffix of one quote) before undoing the doubling; comparison and placeholder formats are `%s = %s` / `%s = $%d` with the value passed through the quoting function; the group-by list is joined by ',' after ';' (the text a formatting function produces is followed through returning and builder-writing helpers alike); " +
+			"C10.fieldtoken — the lexer state that scans identifiers emits the one constant token kind the parser requires in front of a comparison on every path (never a kind chosen from the scanned word), so every column name the formatter writes comes back as a field; " +
+			"C10.fieldverbatim — the column stored in a comparison node and every element of the group-by list is the field token's text itself (followed through variables, parameters and parser helpers; no call, re-slice or concatenation applied to it). " +
 			"NOT decided: the round-trip equality itself and the fixpoint of format∘parse (string values; need the parser's language, see C09).",
 		assumptions: []string{"the generated getters return the oneof member or nil", "go/ssa CFG"},
 	})
@@ -183,9 +185,11 @@ func runC10(c *Ctx) {
 			}
 		}
 	}
-	c10Quote(c, kindFmt)
+	c10Quote(c, exprFmt, kindFmt)
 	unquoteRule(c, "C10.unquote")
 	lexInputRule(c, "C10.lexinput")
+	c10FieldToken(c)
+	c10FieldVerbatim(c)
 }
 
 // matchSeq: ev consists of groups "ORC" (strict) or of "ORC" and bare "R" (non-strict).
@@ -462,7 +466,7 @@ func writesOrFormats(g *ssa.Function, isFormatter func(*ssa.Function) bool) bool
 	return found
 }
 
-func c10Quote(c *Ctx, kindFmt map[string]*ssa.Function) {
+func c10Quote(c *Ctx, exprFmt *ssa.Function, kindFmt map[string]*ssa.Function) {
 	const rule = "C10.quote"
 	type rep struct {
 		fn   *ssa.Function
@@ -507,59 +511,46 @@ func c10Quote(c *Ctx, kindFmt map[string]*ssa.Function) {
 	}
 	c.r.check(enc != nil, rule, "formatter: quote doubling", "ReplaceAll(s, `\"`, `\"\"`)", "the formatter does not double embedded quotes with ReplaceAll(s, `\"`, `\"\"`): values containing quotes do not survive formatting and re-parsing", c.w.pos(c.a.QueryToString.Pos()))
 	c.r.check(dec != nil, rule, "parser: quote undoubling", "ReplaceAll(s, `\"\"`, `\"`)", "the parser's string decoder does not undo the doubling with the swapped constants", c.w.pos(c.a.ParseQuery.Pos()))
-	if enc != nil {
-		// the encoder's result is wrapped by a `"%s"` format (or concatenation with quotes)
-		wrapped := false
-		for _, u := range usesOf(enc.call) {
-			// varargs store -> Sprintf
-			if st, ok := u.(*ssa.Store); ok {
-				if ia, ok := st.Addr.(*ssa.IndexAddr); ok {
-					for _, r1 := range referrers(ia.X) {
-						if sl, ok := r1.(*ssa.Slice); ok {
-							for _, r2 := range referrers(sl) {
-								if sc, ok := r2.(*ssa.Call); ok && calleeName(&sc.Call) == "fmt.Sprintf" {
-									if f, ok := constString(sc.Call.Args[0]); ok && f == `"%s"` {
-										wrapped = true
-									}
-								}
-							}
-						}
-					}
-				}
-			}
-			if mi, ok := u.(*ssa.MakeInterface); ok {
-				for _, uu := range usesOf(mi) {
-					if st, ok := uu.(*ssa.Store); ok {
-						if ia, ok := st.Addr.(*ssa.IndexAddr); ok {
-							for _, r1 := range referrers(ia.X) {
-								if sl, ok := r1.(*ssa.Slice); ok {
-									for _, r2 := range referrers(sl) {
-										if sc, ok := r2.(*ssa.Call); ok && calleeName(&sc.Call) == "fmt.Sprintf" {
-											if f, ok := constString(sc.Call.Args[0]); ok && f == `"%s"` {
-												wrapped = true
-											}
-										}
-									}
-								}
-							}
-						}
-					}
-				}
-			}
-			if b, ok := u.(*ssa.BinOp); ok && b.Op == token.ADD {
-				wrapped = true // `"` + s + `"`: checked loosely
+	isFormatter := func(g *ssa.Function) bool {
+		for _, kf := range kindFmt {
+			if g == kf {
+				return true
 			}
 		}
-		c.r.check(wrapped, rule, "formatter: quote wrapping", "the escaped value is wrapped in double quotes", "the escaped value is not wrapped as `\"%s\"`", c.w.ipos(enc.call))
+		return g == exprFmt
+	}
+	if enc != nil {
+		// what the function holding the encoder produces — writes into the builder it is given and/or returns — has
+		// the escaped value between two double quotes on every path, whichever way it is put together (`"%s"`,
+		// concatenation, WriteByte('"') before and after); and it produces it on some path.
+		seqs, why := outputSeqs(c, enc.fn, isFormatter, enc.fn.Signature.Results().Len() == 1)
+		if why != "" {
+			c.r.undecided(rule, "formatter: quote wrapping", "the text produced by the quoting function cannot be followed: "+why, c.w.ipos(enc.call))
+		} else {
+			n, bad := 0, ""
+			for _, sq := range seqs {
+				for rest := sq; ; {
+					k := strings.Index(rest, "<esc:")
+					if k < 0 {
+						break
+					}
+					e := k + strings.Index(rest[k:], ">")
+					if k == 0 || rest[k-1] != '"' || e+1 >= len(rest) || rest[e+1] != '"' {
+						bad = sq
+					}
+					n++
+					rest = rest[e+1:]
+				}
+			}
+			c.r.check(n > 0 && bad == "", rule, "formatter: quote wrapping", "the escaped value is wrapped in double quotes",
+				fmt.Sprintf("the escaped value is not wrapped as `\"%%s\"` (%s produces %q; <esc:x> = x with quotes doubled): without both delimiters the text is not a string literal of the query language and does not parse back to the value", safeFname(enc.fn), firstNonEmpty(bad, strings.Join(seqs, " | "))), c.w.ipos(enc.call))
+		}
 	}
 	// what the comparison formatter writes, as a symbolic token sequence per path (constants with blanks removed,
-	// <col>, <qval> = value through the quoting function, <num> = decimal placeholder number)
+	// <Column>, <q:Value> = the value through the quoting function, i.e. `"` <esc:Value> `"`, <n:Placeholder> = decimal
+	// placeholder number). The quoting function is rendered in place, so it may return the literal or write it.
 	if f := kindFmt["Equal"]; f != nil {
-		var encFn *ssa.Function
-		if enc != nil {
-			encFn = enc.fn
-		}
-		seqs, why := outputSeqs(c, f, encFn)
+		seqs, why := outputSeqs(c, f, isFormatter, false)
 		if why != "" {
 			c.r.undecided(rule, safeFname(f)+": output", "the text written by the comparison formatter cannot be followed: "+why, c.w.pos(f.Pos()))
 		} else {
@@ -567,6 +558,7 @@ func c10Quote(c *Ctx, kindFmt map[string]*ssa.Function) {
 			got := map[string]bool{}
 			bad := ""
 			for _, sq := range seqs {
+				sq = strings.ReplaceAll(sq, `"<esc:Value>"`, "<q:Value>")
 				got[sq] = true
 				if !want[sq] {
 					bad = sq
@@ -580,7 +572,7 @@ func c10Quote(c *Ctx, kindFmt map[string]*ssa.Function) {
 	}
 	// group-by list: on the path that writes it, ';' followed by the columns joined by ','
 	{
-		seqs, why := outputSeqs(c, c.a.QueryToString, nil)
+		seqs, why := outputSeqs(c, c.a.QueryToString, isFormatter, false)
 		if why != "" {
 			c.r.undecided(rule, safeFname(c.a.QueryToString)+": group-by", "the text written for the group-by list cannot be followed: "+why, c.w.pos(c.a.QueryToString.Pos()))
 		} else {
@@ -601,39 +593,99 @@ func c10Quote(c *Ctx, kindFmt map[string]*ssa.Function) {
 	}
 }
 
-// outputSeqs enumerates the paths of a (loop-free) formatting function and renders what each path writes to its
-// builder as a string of symbolic tokens. quoteFn is the quoting helper (its result is rendered <q:Field>).
-func outputSeqs(c *Ctx, fn *ssa.Function, quoteFn *ssa.Function) ([]string, string) {
+// outFrame is one activation in the symbolic output model: the function being rendered, the phi choices of the path
+// taken so far, and — for a helper rendered in place of its call — the binding of its parameters to the call's
+// arguments together with the caller's activation (in which those arguments are rendered).
+type outFrame struct {
+	fn     *ssa.Function
+	phis   map[*ssa.Phi]ssa.Value
+	args   map[*ssa.Parameter]ssa.Value
+	parent *outFrame
+}
+
+func (fr *outFrame) depth() int {
+	n := 0
+	for f := fr; f != nil; f = f.parent {
+		n++
+	}
+	return n
+}
+
+func (fr *outFrame) active(g *ssa.Function) bool {
+	for f := fr; f != nil; f = f.parent {
+		if f.fn == g {
+			return true
+		}
+	}
+	return false
+}
+
+// isTextSink: the static type of v is one the formatter writes text to.
+func isTextSink(t types.Type) bool {
+	switch typeString(t) {
+	case "*strings.Builder", "*bytes.Buffer", "io.Writer", "io.StringWriter", "io.ByteWriter":
+		return true
+	}
+	return false
+}
+
+// outputSeqs enumerates the paths of a (loop-free) formatting function and renders the text each path produces as a
+// string of symbolic tokens: constants (blanks removed), <Field> for a field load, <n:Field> for the decimal rendering
+// of an integer field, <esc:Field> for the field with every '"' doubled (ReplaceAll(v, `"`, `""`)), <join,:Field>.
+// "Produces" means: writes to the builder the function was given (or created), whatever API is used — WriteString /
+// WriteByte / WriteRune of constants and values, Fprintf/Fprint/Sprintf verbs, strconv.Itoa/FormatInt(_, 10), string
+// concatenation — plus, with withResult, the string it returns. Helpers of the parser package are rendered in place of
+// their call with their parameters bound to the call's arguments: a *returning* helper (one return statement) yields
+// the rendering of its result, a *writing* helper that is handed the output builder contributes its own writes, path
+// by path. So `"%s"` around the escaped value, `"` + esc + `"`, and WriteByte('"'); WriteString(esc); WriteByte('"')
+// inside writeQuoted(b, s) all render as `"<esc:Value>"`, and each broken variant (other escape, a missing quote, the
+// raw value, the value inside a format string) renders differently in each of these shapes.
+// skip names functions that are not rendered in place (the recursive formatters).
+func outputSeqs(c *Ctx, fn *ssa.Function, skip func(*ssa.Function) bool, withResult bool) ([]string, string) {
 	var out []string
 	why := ""
-	var tok func(v ssa.Value, phis map[*ssa.Phi]ssa.Value, verb string) string
-	tok = func(v ssa.Value, phis map[*ssa.Phi]ssa.Value, verb string) string {
+	plainVerb := func(verb string) bool { return verb == "" || verb == "s" || verb == "v" }
+	var tok func(v ssa.Value, fr *outFrame, verb string) string
+	tok = func(v ssa.Value, fr *outFrame, verb string) string {
 		for n := 0; n < 8; n++ {
 			if phi, ok := v.(*ssa.Phi); ok {
-				if r, ok := phis[phi]; ok {
+				if r, ok := fr.phis[phi]; ok {
 					v = r
 					continue
 				}
 			}
 			break
 		}
+		// a string-valued sub-expression under a verb other than %s/%v is not the text itself
+		wrap := func(s string) string {
+			if plainVerb(verb) {
+				return s
+			}
+			return "<%" + verb + ":" + s + ">"
+		}
 		switch x := v.(type) {
 		case *ssa.Const:
 			if sv, ok := constString(x); ok {
-				return strings.ReplaceAll(sv, " ", "")
+				return wrap(strings.ReplaceAll(sv, " ", ""))
 			}
 			if k, ok := constInt(x); ok {
 				return string(rune(k))
 			}
+		case *ssa.Parameter:
+			if a, ok := fr.args[x]; ok && fr.parent != nil {
+				return tok(a, fr.parent, verb)
+			}
+			// a parameter of the function being rendered itself
+			return wrap("<$" + x.Name() + ">")
 		case *ssa.MakeInterface:
-			return tok(x.X, phis, verb)
+			return tok(x.X, fr, verb)
 		case *ssa.Convert:
-			return tok(x.X, phis, verb)
+			return tok(x.X, fr, verb)
 		case *ssa.ChangeType:
-			return tok(x.X, phis, verb)
+			return tok(x.X, fr, verb)
 		case *ssa.BinOp:
 			if x.Op == token.ADD {
-				return tok(x.X, phis, "") + tok(x.Y, phis, "")
+				return wrap(tok(x.X, fr, "") + tok(x.Y, fr, ""))
 			}
 		case *ssa.UnOp:
 			if f := srcField(x); f != nil {
@@ -651,100 +703,222 @@ func outputSeqs(c *Ctx, fn *ssa.Function, quoteFn *ssa.Function) ([]string, stri
 			}
 		case *ssa.Call:
 			name := calleeName(&x.Call)
-			if g := calleeFunc(&x.Call); g != nil && quoteFn != nil && g == quoteFn {
-				if f := srcField(x.Call.Args[0]); f != nil {
-					if verb == "" || verb == "s" || verb == "v" {
-						return "<q:" + f.Name() + ">"
-					}
-					return "<%" + verb + "q:" + f.Name() + ">"
-				}
-			}
 			switch name {
 			case "strconv.Itoa", "strconv.FormatInt", "strconv.FormatUint":
-				if f := srcField(peelConv(x.Call.Args[0])); f != nil {
-					return "<n:" + f.Name() + ">"
+				base := int64(10)
+				if name != "strconv.Itoa" {
+					base, _ = constInt(x.Call.Args[1])
 				}
+				if inner := tok(peelConv(x.Call.Args[0]), fr, "d"); base == 10 && strings.HasPrefix(inner, "<n:") {
+					return wrap(inner)
+				}
+			case "strings.ReplaceAll", "strings.Replace":
+				if k, ok := constInt(x.Call.Args[len(x.Call.Args)-1]); name == "strings.Replace" && (!ok || k >= 0) {
+					return wrap("<replace-some:" + tok(x.Call.Args[0], fr, "") + ">")
+				}
+				a, ok1 := constString(x.Call.Args[1])
+				b, ok2 := constString(x.Call.Args[2])
+				inner := tok(x.Call.Args[0], fr, "")
+				if ok1 && ok2 && a == `"` && b == `""` && strings.HasPrefix(inner, "<") && strings.HasSuffix(inner, ">") && strings.Count(inner, "<") == 1 {
+					return wrap("<esc:" + inner[1:])
+				}
+				return wrap("<replace:" + inner + ">")
 			case "strings.Join":
 				if f := path(x.Call.Args[0]).lastField(); f != nil {
 					if sep, ok := constString(x.Call.Args[1]); ok {
-						return "<join" + strings.TrimSpace(sep) + ":" + f.Name() + ">"
+						return wrap("<join" + strings.TrimSpace(sep) + ":" + f.Name() + ">")
 					}
 				}
 			case "fmt.Sprintf":
-				return fmtTokens(x.Call.Args, 0, func(v ssa.Value, verb string) string { return tok(v, phis, verb) })
+				return wrap(fmtTokens(x.Call.Args, 0, func(v ssa.Value, verb string) string { return tok(v, fr, verb) }))
 			case "fmt.Sprint":
-				return fmtTokens(x.Call.Args, -1, func(v ssa.Value, verb string) string { return tok(v, phis, verb) })
+				return wrap(fmtTokens(x.Call.Args, -1, func(v ssa.Value, verb string) string { return tok(v, fr, verb) }))
+			}
+			// a returning helper of the parser package: the rendering of what it returns, parameters bound to the arguments
+			if g := calleeFunc(&x.Call); g != nil && c.w.pkgPathOf(g) == pkgParser && g.Blocks != nil && !fr.active(g) && fr.depth() < 4 && (skip == nil || !skip(g)) && g.Signature.Results().Len() == 1 {
+				var rets []*ssa.Return
+				allInstrs(g, func(i ssa.Instruction) {
+					if r, ok := i.(*ssa.Return); ok {
+						rets = append(rets, r)
+					}
+				})
+				if len(rets) == 1 && len(rets[0].Results) == 1 {
+					sub := &outFrame{fn: g, phis: map[*ssa.Phi]ssa.Value{}, args: map[*ssa.Parameter]ssa.Value{}, parent: fr}
+					for k, p := range g.Params {
+						if k < len(x.Call.Args) {
+							sub.args[p] = x.Call.Args[k]
+						}
+					}
+					return wrap(tok(rets[0].Results[0], sub, ""))
+				}
 			}
 		}
 		return "<?>"
 	}
+	// isOut: v is the builder whose contents are the function's output — the root function's builder parameter or
+	// local builder, possibly handed down through helper parameters. A builder local to a helper is not.
+	var isOut func(v ssa.Value, fr *outFrame) bool
+	isOut = func(v ssa.Value, fr *outFrame) bool {
+		for n := 0; n < 8; n++ {
+			switch x := v.(type) {
+			case *ssa.MakeInterface:
+				v = x.X
+				continue
+			case *ssa.ChangeType:
+				v = x.X
+				continue
+			case *ssa.ChangeInterface:
+				v = x.X
+				continue
+			case *ssa.Phi:
+				if r, ok := fr.phis[x]; ok {
+					v = r
+					continue
+				}
+			}
+			break
+		}
+		switch x := v.(type) {
+		case *ssa.Parameter:
+			if a, ok := fr.args[x]; ok && fr.parent != nil {
+				return isOut(a, fr.parent)
+			}
+			return fr.parent == nil && isTextSink(x.Type())
+		case *ssa.Alloc:
+			// the root function's own builder (QueryToString) — unless it was given one, which then is the output
+			if fr.parent != nil || !isTextSink(x.Type()) {
+				return false
+			}
+			for _, p := range fr.fn.Params {
+				if isTextSink(p.Type()) {
+					return false
+				}
+			}
+			return true
+		}
+		return false
+	}
 	steps := 0
-	var walk func(b, prev *ssa.BasicBlock, phis map[*ssa.Phi]ssa.Value, acc string, visits map[*ssa.BasicBlock]int)
-	walk = func(b, prev *ssa.BasicBlock, phis map[*ssa.Phi]ssa.Value, acc string, visits map[*ssa.BasicBlock]int) {
+	// walk runs block b of the activation fr from instruction index `from`; cont is what happens when the activation
+	// returns (the rest of the caller for a helper rendered in place, recording the path for the root function).
+	var walk func(b, prev *ssa.BasicBlock, from int, fr *outFrame, acc string, visits map[*ssa.BasicBlock]int, cont func(acc string))
+	walk = func(b, prev *ssa.BasicBlock, from int, fr *outFrame, acc string, visits map[*ssa.BasicBlock]int, cont func(acc string)) {
 		if why != "" {
 			return
 		}
-		steps++
-		if steps > 5000 {
-			why = "too many paths"
-			return
-		}
-		if visits[b] >= 1 {
-			return // loops are not followed (the operator formatters are checked by C10.parens)
-		}
-		v2 := map[*ssa.BasicBlock]int{}
-		for k, n := range visits {
-			v2[k] = n
-		}
-		v2[b]++
-		p2 := map[*ssa.Phi]ssa.Value{}
-		for k, v := range phis {
-			p2[k] = v
-		}
-		if prev != nil {
-			for _, ins := range b.Instrs {
-				phi, ok := ins.(*ssa.Phi)
-				if !ok {
-					break
-				}
-				for k, p := range b.Preds {
-					if p == prev {
-						p2[phi] = phi.Edges[k]
+		v2 := visits
+		if from == 0 {
+			steps++
+			if steps > 5000 {
+				why = "too many paths"
+				return
+			}
+			if visits[b] >= 1 {
+				return // loops are not followed (the operator formatters are checked by C10.parens)
+			}
+			v2 = map[*ssa.BasicBlock]int{}
+			for k, n := range visits {
+				v2[k] = n
+			}
+			v2[b]++
+			p2 := map[*ssa.Phi]ssa.Value{}
+			for k, v := range fr.phis {
+				p2[k] = v
+			}
+			if prev != nil {
+				for _, ins := range b.Instrs {
+					phi, ok := ins.(*ssa.Phi)
+					if !ok {
+						break
+					}
+					for k, p := range b.Preds {
+						if p == prev {
+							p2[phi] = phi.Edges[k]
+						}
 					}
 				}
 			}
+			fr = &outFrame{fn: fr.fn, phis: p2, args: fr.args, parent: fr.parent}
 		}
-		for _, ins := range b.Instrs {
-			switch x := ins.(type) {
+		for idx := from; idx < len(b.Instrs); idx++ {
+			switch x := b.Instrs[idx].(type) {
 			case *ssa.Call:
 				name := calleeName(&x.Call)
+				args := x.Call.Args
 				switch name {
-				case "(*strings.Builder).WriteString", "io.WriteString", "(*bytes.Buffer).WriteString":
-					acc += tok(x.Call.Args[len(x.Call.Args)-1], p2, "")
-				case "(*strings.Builder).WriteByte", "(*strings.Builder).WriteRune":
-					acc += tok(x.Call.Args[1], p2, "")
+				case "(*strings.Builder).WriteString", "io.WriteString", "(*bytes.Buffer).WriteString", "(*strings.Builder).WriteByte", "(*strings.Builder).WriteRune", "(*bytes.Buffer).WriteByte", "(*bytes.Buffer).WriteRune":
+					if isOut(args[0], fr) {
+						acc += tok(args[1], fr, "")
+					}
+					continue
 				case "fmt.Fprintf":
-					acc += fmtTokens(x.Call.Args[1:], 0, func(v ssa.Value, verb string) string { return tok(v, p2, verb) })
+					if isOut(args[0], fr) {
+						acc += fmtTokens(args[1:], 0, func(v ssa.Value, verb string) string { return tok(v, fr, verb) })
+					}
+					continue
 				case "fmt.Fprint":
-					acc += fmtTokens(x.Call.Args[1:], -1, func(v ssa.Value, verb string) string { return tok(v, p2, verb) })
+					if isOut(args[0], fr) {
+						acc += fmtTokens(args[1:], -1, func(v ssa.Value, verb string) string { return tok(v, fr, verb) })
+					}
+					continue
 				}
+				// a writing helper of the parser package that is handed the output builder: its writes, path by path
+				g := calleeFunc(&x.Call)
+				if g == nil || c.w.pkgPathOf(g) != pkgParser || g.Blocks == nil || (skip != nil && skip(g)) {
+					continue
+				}
+				given := false
+				for _, a := range args {
+					if isTextSink(a.Type()) && isOut(a, fr) {
+						given = true
+					}
+				}
+				if !given {
+					continue
+				}
+				if fr.active(g) || fr.depth() >= 4 {
+					acc += "<?>"
+					continue
+				}
+				sub := &outFrame{fn: g, phis: map[*ssa.Phi]ssa.Value{}, args: map[*ssa.Parameter]ssa.Value{}, parent: fr}
+				for k, p := range g.Params {
+					if k < len(args) {
+						sub.args[p] = args[k]
+					}
+				}
+				bb, nextIdx, frame, vv := b, idx+1, fr, v2
+				walk(g.Blocks[0], nil, 0, sub, acc, map[*ssa.BasicBlock]int{}, func(acc2 string) {
+					walk(bb, prev, nextIdx, frame, acc2, vv, cont)
+				})
+				return
 			case *ssa.If:
-				walk(b.Succs[0], b, p2, acc, v2)
-				walk(b.Succs[1], b, p2, acc, v2)
+				walk(b.Succs[0], b, 0, fr, acc, v2, cont)
+				walk(b.Succs[1], b, 0, fr, acc, v2, cont)
 				return
 			case *ssa.Jump:
-				walk(b.Succs[0], b, p2, acc, v2)
+				walk(b.Succs[0], b, 0, fr, acc, v2, cont)
 				return
 			case *ssa.Return:
-				out = append(out, acc)
+				if fr.parent == nil && withResult && len(x.Results) == 1 {
+					acc += tok(x.Results[0], fr, "")
+				}
+				cont(acc)
 				return
 			case *ssa.Panic:
 				return
 			}
 		}
 	}
-	walk(fn.Blocks[0], nil, map[*ssa.Phi]ssa.Value{}, "", map[*ssa.BasicBlock]int{})
+	root := &outFrame{fn: fn, phis: map[*ssa.Phi]ssa.Value{}}
+	walk(fn.Blocks[0], nil, 0, root, "", map[*ssa.BasicBlock]int{}, func(acc string) { out = append(out, acc) })
 	return out, why
+}
+
+func firstNonEmpty(a, b string) string {
+	if a != "" {
+		return a
+	}
+	return b
 }
 
 // fmtTokens renders fmt-style arguments: args[fmtIdx] is the format (fmtIdx < 0: Sprint-style, no format), followed by
